@@ -491,6 +491,12 @@ func (e *Env) resolveModifies(entries []string) (targets []modTarget, all bool) 
 			targets = append(targets, modTarget{key: g.arrKey(T), whole: true})
 			continue
 		}
+		if strings.HasPrefix(m, "cells(") && strings.HasSuffix(m, ")") {
+			// every memory-resident variable of this type (captured variables of closures, address-taken locals)
+			T, _ := e.resolveType(m[6 : len(m)-1])
+			targets = append(targets, modTarget{key: g.cellKey(T), whole: true})
+			continue
+		}
 		if strings.HasPrefix(m, "maps(") && strings.HasSuffix(m, ")") {
 			// contents of every Go map of this type: maps(K;V)
 			kv := strings.Split(m[5:len(m)-1], ";")
